@@ -325,6 +325,52 @@ pub fn check_cs(n: usize, fill: u8) -> Vec<Finding> {
     }
 }
 
+/// Content, not size: a short byte string with arbitrary content must be accepted by every
+/// constructor that takes bytes / text, keep its exact bytes, and survive the wire.
+pub fn check_content(bytes: &[u8]) -> Vec<Finding> {
+    let case = json!({"kind": "content", "bytes": crate::engine::hex(bytes)});
+    let r = guarded(|| {
+        let mut bad: Vec<(String, String)> = Vec::new();
+        match CharacterString::new(bytes) {
+            Ok(c) => {
+                if c.verif_bytes() != bytes {
+                    bad.push(("content-changed".into(), format!("CharacterString::new({:?}) holds {:?}", bytes, c.verif_bytes())));
+                }
+            }
+            Err(e) => bad.push(("content-rejected".into(), format!("CharacterString::new({:?}) refused: {:?}", bytes, e))),
+        }
+        if let Ok(s) = std::str::from_utf8(bytes) {
+            if CharacterString::try_from(s).is_err() || CharacterString::try_from(s.to_string()).is_err() {
+                bad.push(("content-rejected".into(), format!("CharacterString::try_from({:?}) refused", s)));
+            }
+            match TXT::new().with_string(s) {
+                Ok(t) => {
+                    let got: Vec<Vec<u8>> = t.verif_strings().iter().map(|x| x.to_vec()).collect();
+                    if got != vec![bytes.to_vec()] {
+                        bad.push(("content-changed".into(), format!("TXT::with_string({:?}) holds {:?}", s, got)));
+                    }
+                }
+                Err(e) => bad.push(("content-rejected".into(), format!("TXT::with_string({:?}) refused: {:?}", s, e))),
+            }
+            match TXT::try_from(s) {
+                Ok(t) => match String::try_from(t) {
+                    Ok(j) if j == s => {}
+                    other => bad.push(("content-join".into(), format!("split/join of {:?} gives {:?}", s, other))),
+                },
+                Err(e) => bad.push(("content-rejected".into(), format!("TXT::try_from({:?}) refused: {:?}", s, e))),
+            }
+        }
+        bad
+    });
+    match r {
+        Err(p) => vec![finding(format!("C19|content|{}", p.sig()), format!("{:?}", p), case)],
+        Ok(bad) => {
+            let mut seen = std::collections::BTreeSet::new();
+            bad.into_iter().filter(|(n, _)| seen.insert(n.clone())).map(|(n, d)| finding(format!("C19|{}", n), d, case.clone())).collect()
+        }
+    }
+}
+
 const CHARS: [&str; 8] = ["a", "é", "€", "😀", "\u{13b}", "\u{23d}", ";", "="];
 
 pub fn run(ctx: &Ctx) {
@@ -509,6 +555,73 @@ pub fn run(ctx: &Ctx) {
     ctx.space("character-string construction: every length 0..=300 x 2 fills x 7 constructors + wire framing", 602, "complete");
     ctx.sample(json!({"kind": "cs", "n": 256, "fill": 255}));
     ctx.merge(t);
+    // content sweeps: every byte string of length <= 2 and, at length 3, every (first, last) pair of
+    // special bytes around every middle byte (thorough: every byte string of length 3)
+    {
+        let thorough = ctx.tier == crate::engine::Tier::Thorough;
+        let specials: Vec<u8> = (0x20u8..0x30).chain(0x3a..0x41).chain(0x5b..0x61).chain(0x7b..0x80).chain([0x00, 0x0a, 0x09, 0x80, 0xc3, 0xff, b'a', b'0']).collect();
+        let firsts: Vec<u8> = if thorough { (0..=255u8).collect() } else { specials.clone() };
+        let total = std::sync::atomic::AtomicU64::new(0);
+        let shards: Vec<u8> = firsts.clone();
+        par_shards(ctx, &shards, |a, t: &mut Tally| {
+            let mut n = 0u64;
+            let lasts: Vec<u8> = if thorough { (0..=255u8).collect() } else { specials.clone() };
+            for m in 0..=255u8 {
+                for z in &lasts {
+                    n += 1;
+                    t.evals += 1;
+                    t.nontrivial += 1;
+                    let f = check_content(&[*a, m, *z]);
+                    if !f.is_empty() {
+                        ctx.violations(f);
+                    }
+                }
+            }
+            total.fetch_add(n, std::sync::atomic::Ordering::Relaxed);
+            t.outcome("content");
+        });
+        let mut t = Tally::default();
+        let mut n = 0u64;
+        for a in 0..=255u8 {
+            t.evals += 1;
+            n += 1;
+            ctx.violations(check_content(&[a]));
+            for b2 in 0..=255u8 {
+                t.evals += 1;
+                n += 1;
+                ctx.violations(check_content(&[a, b2]));
+            }
+        }
+        ctx.violations(check_content(&[]));
+        // quoted / escaped shapes of lengths 4..=8 over {", \, a, =}
+        let mut b = Vec::new();
+        crate::engine::for_each_string_upto(b"\"\\a=;", 7, &mut b, &mut |x| {
+            if x.len() >= 4 {
+                n += 1;
+                t.evals += 1;
+                let f = check_content(x);
+                if !f.is_empty() {
+                    ctx.violations(f);
+                }
+            }
+        });
+        // attribute maps whose keys and values are wrapped in each ASCII character
+        for c in 0x20u8..0x7f {
+            if c == b'=' {
+                continue;
+            }
+            let ch = c as char;
+            for (k, v) in [(format!("{}k{}", ch, ch), Some(format!("{}v{}", ch, ch))), (format!("k{}", ch), Some(format!("{}", ch))), (format!("{}k", ch), None)] {
+                t.evals += 1;
+                n += 1;
+                ctx.violations(check_map(&[(k, v)]));
+            }
+        }
+        t.outcome("content");
+        ctx.merge(t);
+        ctx.space(&format!("content: every byte string of length <= 2, every 3-byte string with {} first / last bytes x all middle bytes, every string of length 4..=7 over {{\", \\, a, =, ;}}, attribute maps with keys / values wrapped in every printable ASCII character; through CharacterString::new / try_from, TXT::with_string, TXT::try_from(&str) + join, TXT::try_from(map) + attributes", if thorough { "all 256" } else { "58 special" }), total.load(std::sync::atomic::Ordering::Relaxed) + n, "complete");
+        ctx.sample(json!({"kind": "content", "bytes": "226b223d227622"}));
+    }
 }
 
 pub fn replay(case: &Value) -> Vec<Finding> {
@@ -520,6 +633,7 @@ pub fn replay(case: &Value) -> Vec<Finding> {
             check_strings(&l)
         }
         "long" => check_long(case["s"].as_str().unwrap_or("")),
+        "content" => check_content(&crate::engine::unhex(case["bytes"].as_str().unwrap_or(""))),
         "cs" => check_cs(case["n"].as_u64().unwrap_or(0) as usize, case["fill"].as_u64().unwrap_or(0) as u8),
         _ => vec![],
     }
